@@ -108,6 +108,10 @@ func (s *Sink) Open(ctx context.Context) (err error) {
 		for task := range root.Tasks() {
 			err = task.Open(ctx)
 			if err != nil {
+				// release what the task holds although it did not open (a
+				// processor is reserved from the moment it is built), see
+				// Worker.Open
+				_ = task.Close(ctx)
 				return cerrors.Errorf("task %s failed to open: %w", task.ID(), err)
 			}
 			r.Append(func() error {
